@@ -76,6 +76,10 @@ pub struct Case {
     /// each of the three framings (fault enumeration); every one of those sends must return Err
     #[serde(default)]
     pub cut_sweep: bool,
+    /// tier B, single sender: the printer appends this many pattern octets of trailing data to its complete answer
+    /// (tens of MiB; generated at run time so that replay files stay small)
+    #[serde(default)]
+    pub huge_trailing: u32,
 }
 
 #[derive(Clone, Copy)]
@@ -454,7 +458,7 @@ impl C11 {
             Ok(Err(e)) => SendResult::Err(e.to_string()),
             Ok(Ok(mut resp)) => {
                 let parsed = canon(resp.header(), resp.attributes());
-                match guarded(|| drain_sync(resp.payload_mut(), &[], 1 << 24)) {
+                match guarded(|| drain_sync(resp.payload_mut(), &[], 1 << 28)) {
                     Ok(payload) => SendResult::Ok { parsed, payload },
                     Err(p) => SendResult::Panic(format!("reading response payload: {p}")),
                 }
@@ -686,7 +690,7 @@ impl C11 {
                                     Err(e) => SendResult::Err(e.to_string()),
                                     Ok(mut resp) => {
                                         let parsed = canon(resp.header(), resp.attributes());
-                                        let payload = crate::drive::drain_async(resp.payload_mut(), &[], 1 << 24).await;
+                                        let payload = crate::drive::drain_async(resp.payload_mut(), &[], 1 << 28).await;
                                         SendResult::Ok { parsed, payload }
                                     }
                                 }
@@ -770,7 +774,7 @@ impl C11 {
                                     Err(e) => SendResult::Err(e.to_string()),
                                     Ok(mut resp) => {
                                         let parsed = canon(resp.header(), resp.attributes());
-                                        let payload = crate::drive::drain_async(resp.payload_mut(), &[], 1 << 24).await;
+                                        let payload = crate::drive::drain_async(resp.payload_mut(), &[], 1 << 28).await;
                                         SendResult::Ok { parsed, payload }
                                     }
                                 }
@@ -820,6 +824,17 @@ impl C11 {
             let who = format!("sender {} ({:?} client over TCP)", i + 1, case.client);
             let res = &results[i];
             let s = &case.scripts[i];
+            if case.cfg.timeout_ms == Some(0) {
+                // a zero time-out is already exceeded when the request starts: the statement only says "an error, never
+                // a success"; whether the client got as far as connecting or sending is not judged
+                rep.count("tierB.zero_timeout_runs", 1);
+                match res {
+                    SendResult::Ok { .. } => rep.violate("timeout-not-honoured", format!("{who}: request_timeout is zero (exceeded by any answer) yet send returned {}", res.short())),
+                    SendResult::Panic(p) => rep.violate("client-panicked", format!("{who}: {p}")),
+                    SendResult::Err(_) => {}
+                }
+                continue;
+            }
             let conn = seen.iter().find(|c| c.req.body.len() >= 8 && u32::from_be_bytes([c.req.body[4], c.req.body[5], c.req.body[6], c.req.body[7]]) == i as u32 + 1).or(if n == 1 { seen.first() } else { None });
             let complete = conn.map(|c| c.req.complete).unwrap_or(false);
             if let Some(c) = conn {
@@ -906,7 +921,8 @@ impl Prop for C11 {
         }
         // tier B only: a stalled printer together with a client timeout (the one clock-dependent clause)
         if transport == Transport::Tcp && n == 1 && rng.chance(1, 36) {
-            cfg.timeout_ms = Some(rng.range(150, 400) as u32);
+            // (a zero time-out is exceeded before anything can happen: whatever the printer does, send must fail)
+            cfg.timeout_ms = Some(if rng.chance(1, 5) { 0 } else { rng.range(150, 400) as u32 });
             let s = &mut scripts[0];
             s.status = 200;
             s.reset_request_after = None;
@@ -937,7 +953,23 @@ impl Prop for C11 {
         let write_sched = (0..nw).map(|_| *rng.pick(&[1u32, 2, 7, 64, 1000, 100_000])).collect();
         let baton = (0..rng.usize(0, 64)).map(|_| rng.byte()).collect();
         let cut_sweep = n == 1 && if transport == Transport::Mem { rng.chance(1, 100) } else { cfg.timeout_ms.map(|t| t >= 30_000).unwrap_or(true) && rng.chance(1, 60) };
-        Case { transport, client, cfg, senders, scripts, write_sched, baton, cut_sweep }
+        let mut huge_trailing = 0u32;
+        if transport == Transport::Tcp && n == 1 && !cut_sweep && cfg.timeout_ms.map(|t| t >= 30_000).unwrap_or(true) && rng.chance(1, 200) {
+            // a very large document behind the attributes (Get-Document style answer): sizes beyond 16 MiB and 64 MiB
+            huge_trailing = *rng.pick(&[(16u32 << 20) + 1, (64 << 20) + 12_345, 100 << 20]);
+            let s = &mut scripts[0];
+            s.status = 200;
+            s.fault = None;
+            s.reset_request_after = None;
+            s.drip_ms = 0;
+            s.segments = vec![];
+            s.framing = match rng.below(3) {
+                0 => Framing::ContentLength,
+                1 => Framing::CloseDelimited,
+                _ => Framing::Chunked(vec![65_536]),
+            };
+        }
+        Case { transport, client, cfg, senders, scripts, write_sched, baton, cut_sweep, huge_trailing }
     }
 
     fn run(&self, case: &Case, record: bool) -> RunReport {
@@ -964,6 +996,20 @@ impl Prop for C11 {
                 rep.count("script.fault.reset_during_request", 1);
             }
         }
+        let expanded;
+        let case = if case.huge_trailing > 0 && case.transport == Transport::Tcp && n == 1 {
+            let mut c = case.clone();
+            let t = &mut c.scripts[0].trailing;
+            let base = t.len();
+            t.reserve(case.huge_trailing as usize);
+            t.extend((0..case.huge_trailing as usize).map(|i| ((base + i).wrapping_mul(31) ^ ((base + i) >> 11)) as u8));
+            rep.count("tierB.huge_trailing_data_runs", 1);
+            rep.count("tierB.huge_trailing_data_mib", (case.huge_trailing >> 20) as u64);
+            expanded = c;
+            &expanded
+        } else {
+            case
+        };
         match case.transport {
             Transport::Mem => self.run_mem(case, record, &mut rep),
             Transport::Tcp => self.run_tcp(case, record, &mut rep),
@@ -996,6 +1042,12 @@ impl Prop for C11 {
         }
         if !c.write_sched.is_empty() {
             out.push(Case { write_sched: vec![], ..c.clone() });
+        }
+        if c.huge_trailing > 0 {
+            out.push(Case { huge_trailing: 0, ..c.clone() });
+            if c.huge_trailing > 1 << 20 {
+                out.push(Case { huge_trailing: c.huge_trailing / 2, ..c.clone() });
+            }
         }
         if !c.cfg.headers.is_empty() || c.cfg.auth.is_some() || c.cfg.query.is_some() {
             let mut d = c.clone();
@@ -1045,7 +1097,7 @@ impl Prop for C11 {
     }
 
     fn rule(&self) -> String {
-        "Tier A (3 of 4 runs): the real IppClient::send (ureq agent, header loop, streaming chunked body, IppParser on the response reader) over an in-memory transport installed through the cfg(ipp_verif) hook; every transport read/write is scripted: short writes, response segmentation, framing (content-length / chunked with seeded chunk sizes / close-delimited), status (200 or any 4xx/5xx code), one fault (cut, I/O error kind or read time-out at an offset classified as HTTP head / IPP header / attributes / trailing data; or reset while the request is being written); request payload from a fragmented source with EINTR / not-ready results — a blocking Read or an AsyncRead, in a quarter of the runs the kind that does NOT match the client (both payload bridges under both clients); custom headers are private x- names or registered request headers (content-language, content-disposition, accept-language, cookie, ...) other than the ones the clients set themselves; 1 of 100 single-sender runs additionally cuts the response at EVERY offset before the end of the attributes under each framing ('cut_sweep_sends'); 1 of 6 runs has 2-6 concurrent senders through one shared client under the seeded baton scheduler (one thread runs at a time, every transport call is a yield point); in tier A each of them has its own script, so some may meet an error status or a failing connection while the others must still get their own complete response. Tier B (every 4th run): IppClient and AsyncIppClient against the same scripted printer over real loopback TCP (concurrent senders are gated: the printer answers only once all their requests have arrived and then interleaves the response segments of the connections in a seeded order, so requests and responses really overlap), plus, in 1 of 60 single-sender runs, a sweep of clean closes at ~100 sampled offsets before the end of the attributes under three framings ('tierB.cut_sweep_sends'), and the two request_timeout clauses: a stalled printer, and a printer that drips its answer with gaps shorter than the timeout but a total of ~4x the timeout. Oracles: exactly one POST per send to path+query with Host, content-type, every custom header, Basic credentials; de-chunked body == to_bytes() of the sent instance ++ payload; 2xx + complete => Ok equal to the unfragmented parse of the scripted IPP bytes and identical trailing data; 4xx/5xx, failure before the end of the attributes, reset during the request, or stall / slow drip beyond the timeout => Err; failure inside trailing data => attributes equal and trailing data a prefix; each concurrent sender gets the response carrying its own token. distinct_nontrivial = distinct hashes of the transport call sequence (+ baton order) [tier A] or of (configuration, scripts, outcome classes) [tier B] among runs with a payload, a fault, an error status or several senders."
+        "Tier A (3 of 4 runs): the real IppClient::send (ureq agent, header loop, streaming chunked body, IppParser on the response reader) over an in-memory transport installed through the cfg(ipp_verif) hook; every transport read/write is scripted: short writes, response segmentation, framing (content-length / chunked with seeded chunk sizes / close-delimited), status (200 or any 4xx/5xx code), one fault (cut, I/O error kind or read time-out at an offset classified as HTTP head / IPP header / attributes / trailing data; or reset while the request is being written); request payload from a fragmented source with EINTR / not-ready results — a blocking Read or an AsyncRead, in a quarter of the runs the kind that does NOT match the client (both payload bridges under both clients); custom headers are private x- names or registered request headers (content-language, content-disposition, accept-language, cookie, ...) other than the ones the clients set themselves; 1 of 100 single-sender runs additionally cuts the response at EVERY offset before the end of the attributes under each framing ('cut_sweep_sends'); 1 of 6 runs has 2-6 concurrent senders through one shared client under the seeded baton scheduler (one thread runs at a time, every transport call is a yield point); in tier A each of them has its own script, so some may meet an error status or a failing connection while the others must still get their own complete response. Tier B (every 4th run): IppClient and AsyncIppClient against the same scripted printer over real loopback TCP (concurrent senders are gated: the printer answers only once all their requests have arrived and then interleaves the response segments of the connections in a seeded order, so requests and responses really overlap), plus, in 1 of 60 single-sender runs, a sweep of clean closes at ~100 sampled offsets before the end of the attributes under three framings ('tierB.cut_sweep_sends'), and the two request_timeout clauses: a stalled printer (time-out 150-400 ms, or zero), and a printer that drips its answer with gaps shorter than the timeout but a total of ~4x the timeout; 1 of 200 single-sender runs has 16 MiB+1 / 64 MiB+12345 / 100 MiB of trailing document data behind the attributes ('tierB.huge_trailing_data_runs'). Oracles: exactly one POST per send to path+query with Host, content-type, every custom header, Basic credentials; de-chunked body == to_bytes() of the sent instance ++ payload; 2xx + complete => Ok equal to the unfragmented parse of the scripted IPP bytes and identical trailing data; 4xx/5xx, failure before the end of the attributes, reset during the request, or stall / slow drip beyond the timeout => Err; failure inside trailing data => attributes equal and trailing data a prefix; each concurrent sender gets the response carrying its own token. distinct_nontrivial = distinct hashes of the transport call sequence (+ baton order) [tier A] or of (configuration, scripts, outcome classes) [tier B] among runs with a payload, a fault, an error status or several senders."
             .into()
     }
     fn assumptions(&self) -> Vec<String> {
